@@ -79,6 +79,15 @@ let do_vd () : string =
       via ^ "/" ^ mro in
     String.concat " " (List.map one qs)
 
+(* is_method_final queries: "vf <table> q (c n)*" -> 1 / 0 per query *)
+let do_vf () : string =
+  let ct = times (int ()) read_cls in
+  let qs = times (int ()) (fun () -> let c = pos () in let n = pos () in (c, n)) in
+  String.concat " " (List.map (fun (c, n) ->
+      match C.find_cls ct c with
+      | Some cl -> if C.is_method_final ct cl n then "1" else "0"
+      | None -> "?") qs)
+
 (* ---- pass validators *)
 let operand () : C.operand =
   let t = next () in
@@ -216,6 +225,7 @@ let handle (ws : string list) : string =
   match ws with
   | "vt" :: r -> toks := r; do_vt ()
   | "vd" :: r -> toks := r; do_vd ()
+  | "vf" :: r -> toks := r; do_vf ()
   | "cp" :: r -> toks := r; do_cp ()
   | "fe" :: r -> toks := r; do_fe ()
   | "ap" :: r -> toks := r; do_ap ()
